@@ -314,7 +314,8 @@ pub fn view_request(b: &[u8]) -> ReqView {
     v.body = body.to_vec();
     v.head_utf8 = std::str::from_utf8(head).is_ok();
     let text = String::from_utf8_lossy(head).to_string();
-    let mut lines = text.split("\r\n");
+    // lines end with LF, an optional CR before it belongs to the line end
+    let mut lines = text.split('\n').map(|l| l.strip_suffix('\r').unwrap_or(l));
     let rl = lines.next().unwrap_or("");
     let f: Vec<&str> = rl.split(' ').collect();
     if f.len() == 3 && f.iter().all(|x| !x.is_empty()) {
